@@ -25,6 +25,16 @@ objects and ego have heights of several (hundred) metres; each criterion has obj
 elevated ones are placed so that a 3-D norm in place of the BEV distance would change the kept set.  The Lean model
 (`kept_toMap`, `bevDist2_toMap`) states that the kept set and the BEV distance are the same in both renderings of
 any 3-D scene; the model's kept ground truths, heights and BEV distances are compared with the real ones.
+
+End to end.  `PEval.FrameChange.evalFrame` (Model/FrameEval.lean) composes the stage models exactly as `add_frame_result` /
+`evaluate_frame` do (manager filter -> score table -> `Matching.getObjectResults` -> critical filter and `__eq__` classes ->
+`Pipeline.detectFrame` = `AP.frameMap` per configured mode + `PassFail.evaluateFrame` -> CLEAR inputs), reading a frame through
+the branch the objects' frame id selects.  `evalFrame_toMap` / `clear_toMap` / `tracking_toMap` state that the map rendering and
+the ego rendering of any frame / history give the same result.  For frame 0 of every scene with at most 64 estimate x
+ground-truth pairs and no target_uuids (the uuid post-filter on object results is not part of the composed model) the driver
+evaluates the model's whole frame in BOTH renderings from the exact geometry and the configuration alone; object results after
+the critical filter, kept ground truths, TP / FP / FN / TN lists and AP / APH / mAP / mAPH of the four `Map`s are compared with
+the two real frame results (`_cmp_eval`; histogram key `whole-frame-model:*`).
 """
 from __future__ import annotations
 
@@ -55,8 +65,12 @@ RULE = (
 THEOREMS = ["PEval.C07." + t for t in [
     "egoPos_toMap", "position_decision_frame_free", "filter_toMap", "centerDist2_toMap", "planeDist2_toMap", "iou_toMap",
     "aphWeight_toMap", "headingError_toMap", "scoreRow_toMap", "scoreRow_toMap_decisions", "scoreTable_toMap",
-    "downstream_frame_free", "samePose_toMap", "containsPose_toMap", "sameTable_toMap", "distinct_toMap",
-    "egoPos3_toMap", "bevDist2_toMap", "bevDist2_height_free", "filter2_renderMap", "kept_toMap"]]
+    "samePose_toMap", "containsPose_toMap", "sameTable_toMap", "distinct_toMap",
+    "egoPos3_toMap", "bevDist2_toMap", "bevDist2_height_free", "filter2_renderMap", "kept_toMap",
+    # end to end (Model/FrameEval.lean, Lemmas/FrameEval.lean): whole frame = manager filter -> score table -> Matching.getObjectResults
+    # -> critical filter / __eq__ classes -> Pipeline.detectFrame (AP.frameMap, PassFail.evaluateFrame) -> CLEAR; histories
+    "scoreRow_unsigned_toMap", "scoreTable_unsigned_toMap", "evalFrame_toMap", "evalFrame_toMap_components", "evalFrame_matched",
+    "evalHistory_toMap", "clear_toMap", "tracking_toMap", "evalFrame_toMap_fails_J", "evalFrame_toMap_fails_G", "evalFrame_toMap_fails_E"]]
 TRUSTED = [
     "pyquaternion yaw_pitch_roll / rotation composition and numpy matrix products (external contracts, exercised by every case)",
     "shapely polygon intersection (IoU scores are compared between the two renderings within 1e-6)",
@@ -758,7 +772,76 @@ def model_requests(case, out):
            "filter": _filter_request(case, fr)}
     if len(fr["ests"]) * len(fr["gts"]) > 64:  # large scenes: exact score rows only for the pairs that are compared
         req["pairs"] = [[p["i"], p["j"]] for p in out["obs"]["pairs"]]
+    elif _eval_applicable(case):
+        req["eval"] = _eval_request(case, fr, req["filter"])
     return [req]
+
+
+# the model's WHOLE frame (`FrameChange.evalFrame`: manager filter -> score table -> matcher -> critical filter -> pass/fail,
+# AP/APH) in both renderings, compared with the two real frame results of frame 0 (`_cmp_eval`)
+LID = {"unknown": 0, "FP": 1, "car": 2, "bicycle": 3, "pedestrian": 4, "motorbike": 5, "bus": 6}
+MODE_OF = {"Center Distance": "center", "Plane Distance": "plane", "IoU 2D": "iou2d", "IoU 3D": "iou3d"}
+
+
+def _eval_applicable(case):
+    """the composed model leaves out the manager's / critical filter's target_uuids post-filter on object results (frame-free:
+    it reads uuids only); small scenes only (the model computes the whole exact score table incl. polygon clipping)"""
+    c = case["cfg"]
+    return c.get("uuids") is None and c["crit"].get("uuids") is None
+
+
+def _sq(v):
+    return core.q(Fraction(core.q(v)) ** 2)
+
+
+def _eval_request(case, fr, flt):
+    c = case["cfg"]
+
+    def attr(o, k, est):
+        return {"id": o["id"], "label": f"AutowareLabel.{MEMBER[o['label']]}", "name": o["label"], "attrs": list(o.get("attrs") or []),
+                "score": core.q(o.get("score", 1.0)) if est else "1", "pc": o.get("pc", 10), "uuid": o["uuid"],
+                "mlabel": o["label"], "alabel": LID[o["label"]], "uid": k, "stamp": 0}
+
+    n = len(LABELS)
+    if True:  # detection and tracking tasks alike: `evaluate_detection` runs whenever a detection config exists
+        maps = [{"mode": "center", "thrs": [_sq(c["center_thr"])] * n}, {"mode": "iou2d", "thrs": [core.q(c["iou2d_thr"])] * n},
+                {"mode": "iou3d", "thrs": [core.q(c["iou3d_thr"])] * n}, {"mode": "plane", "thrs": [_sq(c["plane_thr"])] * n}]
+    tl = [LID[l] for l in LABELS]
+    return {"mgr": flt["mgr"], "crit": flt["crit"],
+            "est_attrs": [attr(o, k, True) for k, o in enumerate(fr["ests"])],
+            "gt_attrs": [attr(o, k, False) for k, o in enumerate(fr["gts"])],
+            "policy": c["policy"], "targets": list(LABELS), "radii2": None if c["radii"] is None else [_sq(v) for v in c["radii"]],
+            "pf_targets": tl, "pf_thr2": [_sq(v) for v in c["pf_thr"]], "crit_targets": tl, "map_targets": tl, "maps": maps}
+
+
+def _cmp_eval(case, out, r):
+    sent = ["center", "iou2d", "iou3d", "plane"]
+    for rendering in ("ego", "map"):
+        m = r.get(f"eval_{rendering}")
+        if m is None:
+            continue
+        real = out[rendering]["frames"][0]
+        if "err" in m:
+            return f"whole frame [{rendering} rendering]: the model raises {m['err']}, the real frame result exists"
+        m = m["ok"]
+        for key, rv in (("pairs", real["pairs"]), ("gt_kept", real["gt_kept"]), ("tp", real["tp"]), ("fp", [x[0] for x in real["fp"]]),
+                        ("fn", real["fn"]), ("tn", real["tn"])):
+            if m[key] != rv:
+                return f"whole frame [{rendering} rendering] {key}: real {rv} != model evalFrame {m[key]}"
+        by_mode = {MODE_OF.get(mp["mode"], mp["mode"]): mp for mp in real["maps"]}
+        if sorted(by_mode) != sorted(sent) or len(m["maps"]) != len(sent):
+            return f"whole frame [{rendering} rendering]: maps of the real frame {sorted(by_mode)} vs model {sent}"
+        for mode, mm in zip(sent, m["maps"]):
+            rm = by_mode[mode]
+            rows = [("map", rm["map"], mm["map"]), ("maph", rm["maph"], mm["maph"])]
+            rows += [(f"ap[{a[0]}]", a[1], b) for a, b in zip(rm["aps"], mm["aps"])]
+            rows += [(f"aph[{a[0]}]", a[1], b) for a, b in zip(rm["aphs"], mm["aphs"])]
+            if len(rm["aps"]) != len(mm["aps"]) or len(rm["aphs"]) != len(mm["aphs"]):
+                return f"whole frame [{rendering} rendering] {mode}: number of APs differs"
+            for name, a, b in rows:
+                if (a is None) != (b is None) or (a is not None and not _near(a, Fraction(b), 1e-6, 1e-6)):
+                    return f"whole frame [{rendering} rendering] {mode} {name}: real {a} != model evalFrame {b}"
+    return None
 
 
 def _per_label(v):
@@ -836,6 +919,11 @@ def compare(case, out, resps):
             mod, real = r[f"gt_kept_{rendering}"], out[rendering]["frames"][0]["gt_kept"]
             if mod.get("ok") != real:
                 return f"ground truths kept by the two filters [{rendering} rendering]: real {real} != model {mod}"
+    # the whole frame of the composed model against the two real frame results
+    if not out["near"] and "eval_ego" in r:
+        bad = _cmp_eval(case, out, r)
+        if bad:
+            return bad
     # object identity: `==` of the real objects vs the model's equality table (same pose) and the frame-free label
     fr = case["frames"][0]
     for side in ("gts", "ests"):
@@ -911,6 +999,9 @@ def branches(case, out):
         br.append("trivial")
     br += _twin_branches(case, out)
     br += _criteria_branches(case, out)
+    fr0 = case["frames"][0]
+    whole = len(fr0["ests"]) * len(fr0["gts"]) <= 64 and _eval_applicable(case)
+    br.append("whole-frame-model:" + ("compared" if whole and not out["near"] else "near-boundary" if whole else "not-applicable"))
     return br
 
 
